@@ -164,7 +164,8 @@ PROPS = {
                       "same process, what each execution sees must be exactly the task's own env/variables/dir overlaid by that "
                       "stage's overrides - no key private to another stage, no other stage's value - and the task's own settings "
                       "must be unchanged afterwards; repeated runs; in-process (recording Runner owns nothing but observes the "
-                      "task object) and through the binary (values echoed by the commands, pwd -P).",
+                      "task object) and through the binary (values echoed by the commands, pwd -P); part real runs the shared-task "
+                      "API arrangement on the real runner with the task dir written as a template over a variable that stages override.",
         "level_note": "Overlap of concurrent stages at the binary level is provoked by sleep durations, not enumerated.",
         "rule": "api: rapid cases (task env/vars over 4+3 keys each present with p=1/3, stages with own subsets, arrangement drawn, "
                 "second pipeline, direct run, 1..2 repetitions); cli: the same plus stage/task dir. Non-trivial = >= 2 stages share the "
@@ -183,7 +184,8 @@ PROPS = {
         "level_text": "Every non-empty subset of the six env levels (parent, context, env_file, task, stage, variation) defines the same "
                       "name with values whose lexicographic order is an independent random permutation per rapid case, for direct runs "
                       "and stages; the printed value must be the highest level's. Untouched parent variables and TASK_NAME are checked "
-                      "on every run, hooks on a quarter. Dirs: every subset of {stage, task, context} dir x start directory x run mode "
+                      "on every run, hooks on a quarter; stage cases run `taskctl pp tk`, so the direct run behind the pipeline is "
+                      "checked in the same invocation. Dirs: every subset of {stage, task, context} dir x start directory x run mode "
                       "x admissible task-dir forms, pwd -P in commands, before and after.",
         "level_note": "{{.Root}} in a task dir is used only when taskctl starts in the project root (from a sub-directory the code and the "
                       "README disagree about Root and the property does not settle it).",
@@ -203,7 +205,8 @@ PROPS = {
         "level_text": "streams: 1..8 concurrent tasks, generated streams (lines 0..10000 bytes, LF/CRLF/bare CR, unterminated tail, CSI "
                       "sequences, multi-byte runes) under arbitrary cuts into Write calls; raw must forward byte-exactly (per-task "
                       "private alphabets when several tasks share the sink), prefixed must emit whole single-task lines whose "
-                      "normal form equals the input's. formats: every outcome x format (matrix, exhaustive) and rapid 1..3-task "
+                      "normal form equals the input's; every chunk is handed over as a copy that must come back unmodified and the "
+                      "task's recorded output must equal the input. formats: every outcome x format (matrix, exhaustive) and rapid 1..3-task "
                       "processes with durations around the cockpit's 100 ms frame: no crash, no hang, identical recorded results.",
         "level_note": "Chunk boundaries inside an escape sequence are excluded from the main search by construction (known finding "
                       "ansi-split, probed separately); a hang is 12 s against ~0.3 s normal and is cross-checked by a calibration child.",
@@ -250,7 +253,9 @@ PROPS = {
                       "everything finished, once / twice in a row / twice concurrently, through TaskRunner.Cancel, Scheduler.Cancel or "
                       "an unevaluable stage condition. The child must not crash; Cancel and the run must return within 4 s (20 s on the "
                       "retry; ~10 ms normally); recorded pids must disappear; no marker may appear after the cancel completed; "
-                      "interrupted and later runs must report errors; waiting stages must not be done.",
+                      "interrupted and later runs must report errors; waiting stages must not be done. Commands may ignore SIGINT "
+                      "(2 s kill grace); at the return of every single Cancel call - also of an overlapping second one - the interrupted "
+                      "commands must be gone.",
         "level_note": "'At any moment' is sampled at marker granularity (plus drawn delays of 0..20 ms), not at instruction granularity.",
         "rule": "matrix: in-flight 0..4 x waiting {0,2} x 6 injection points x once/twice-seq/twice-conc x runner/scheduler + condition "
                 "errors (quick: double cancels only for <= 2 in flight; thorough: all); cancel: rapid over the same space with drawn "
@@ -269,7 +274,8 @@ PROPS = {
                       "commands x 0..2 variations, optionally with an allowed failure in between; Task.Output() must equal the "
                       "concatenation byte for byte and every transitive dependant in a generated DAG (declared dependants-first) must "
                       "read exactly that text from <NAME>_OUTPUT, the name being computed by the oracle from the statement's rule "
-                      "(or exportAs). A chain task checks .Output command by command.",
+                      "(or exportAs). A chain task checks .Output command by command. The output format is drawn (raw / prefixed, "
+                      "through the binary also cockpit) and payloads may be coloured: what is captured must not depend on how it is shown.",
         "level_note": "Only stages that transitively depend on the producer are checked; consumers read with printenv, which appends one "
                       "newline; CLI task names avoid '{' '}' (loaded names are rendered as templates) and a leading '-'.",
         "rule": "rapid cases; non-trivial = name with a non-identifier byte, or output >= 4 KiB or multi-line, or >= 2 jobs; distinct = "
@@ -347,7 +353,7 @@ PROPS = {
                      "binary level (metamorphic: break => rejected, repair => accepted and runnable)",
         "level_text": "Valid configurations (1..3 tasks, 1..4 pipelines with DAG dependencies, acyclic pipeline inclusion, optional "
                       "watcher, YAML/JSON/TOML) get exactly one break out of {stage->unknown task, stage->unknown pipeline, depends_on->"
-                      "unknown stage, depends_on->stage of another pipeline, self-dependency, watcher->unknown task, duplicate stage "
+                      "unknown stage, depends_on->stage of another pipeline, depends_on->name of a task or pipeline, self-dependency, watcher->unknown task, duplicate stage "
                       "name, pipeline inclusion cycle of length 1..3} at a drawn position: `list` must exit non-zero with a message and "
                       "`validate` must not say 'file is valid', without crashing. Unbroken configurations must be accepted and every "
                       "pipeline must run to exit 0 within 10 s (40 s on the retry) without a fatal log line.",
@@ -409,7 +415,8 @@ PROPS = {
                       "events: the watcher runs while the checker performs 1..6 operations (write, chmod, remove, rename) on observed, "
                       "excluded and unrelated files; every subscribed operation on an observed path must append a line with that "
                       "EventName and EventPath within 4 s (also the 2nd..6th), no line may carry an unsubscribed event or an "
-                      "unobserved path.",
+                      "unobserved path. pairs: every operation kind on every observed file A followed by a write on every other "
+                      "observed file B (names that are textual prefixes of one another included).",
         "level_note": "Depends on the kernel's inotify delivery: extra lines of a subscribed type (a remove is preceded by an attribute "
                       "change) are accepted; a path selected only through 'X/**' matching X itself is accepted either way; a late event "
                       "is re-tried once with 12 s bounds.",
